@@ -95,6 +95,34 @@ PlanOK(c, o) ==
   ELSE IF c.A[1] * c.A[2] + c.A[4] * c.A[5] = 0 /\ o.scale # ScaleSq(c.A) THEN "scale_is_not_the_smaller_pixel_size_ratio"
   ELSE "ok"
 
+(* ------------------ large rasters: the same contract on a sample of pixels ------------------
+   A map that differs from scale + translation by a rotation / shear below the paste tolerances drifts by whole pixels only over thousands of
+   pixels.  Cases carry their own denominator c.den (2^14: rotations of 2^-11 per pixel); the needed set is not enumerated - TLC probes, exactly,
+   the ring of destination pixels just OUTSIDE the planned destination region (none of them may be needed) and the ring just INSIDE it (the source
+   location of every needed one lies in the planned source region), 17 positions per side, plus the four corners of the destination image.   *)
+MapsInsideD(c, xd, yd) == /\ 0 <= Cx2(c.A, xd, yd) /\ Cx2(c.A, xd, yd) < 2 * c.den * c.ws
+                          /\ 0 <= Cy2(c.A, xd, yd) /\ Cy2(c.A, xd, yd) < 2 * c.den * c.hs
+SrcPixD(c, p) == <<FloorDiv(Cx2(c.A, p[1], p[2]), 2 * c.den), FloorDiv(Cy2(c.A, p[1], p[2]), 2 * c.den)>>
+Along(lo, hi) == {lo + ((hi - 1 - lo) * k) \div 16 : k \in 0..16}              \* 17 positions in lo..hi-1 (hi > lo)
+RingOutside(c, rd) ==
+  IF rd[2] <= rd[1] \/ rd[4] <= rd[3] THEN {<<x, y>> \in {0, c.wd \div 2, c.wd - 1} \X {0, c.hd \div 2, c.hd - 1} : TRUE}
+  ELSE {p \in UNION { {<<rd[3] - 1, y>> : y \in Along(rd[1], rd[2])}, {<<rd[4], y>> : y \in Along(rd[1], rd[2])},
+                      {<<x, rd[1] - 1>> : x \in Along(rd[3], rd[4])}, {<<x, rd[2]>> : x \in Along(rd[3], rd[4])},
+                      {<<0, 0>>, <<c.wd - 1, 0>>, <<0, c.hd - 1>>, <<c.wd - 1, c.hd - 1>>} } :
+          0 <= p[1] /\ p[1] < c.wd /\ 0 <= p[2] /\ p[2] < c.hd /\ ~InRoi(rd, p[1], p[2])}
+RingInside(c, rd) ==
+  IF rd[2] <= rd[1] \/ rd[4] <= rd[3] THEN {}
+  ELSE UNION { {<<rd[3], y>> : y \in Along(rd[1], rd[2])}, {<<rd[4] - 1, y>> : y \in Along(rd[1], rd[2])},
+               {<<x, rd[1]>> : x \in Along(rd[3], rd[4])}, {<<x, rd[2] - 1>> : x \in Along(rd[3], rd[4])} }
+BigPlanOK(c, o) ==
+  LET k == o.shrink rs == o.roi_src rd == o.roi_dst IN
+  IF k < 1 THEN "read_shrink_not_a_positive_integer"
+  ELSE IF ~(0 <= rd[1] /\ rd[1] <= rd[2] /\ rd[2] <= c.hd /\ 0 <= rd[3] /\ rd[3] <= rd[4] /\ rd[4] <= c.wd) THEN "destination_region_outside_image"
+  ELSE IF ~(0 <= rs[1] /\ rs[1] <= rs[2] /\ rs[2] <= AlignUp(c.hs, k) /\ 0 <= rs[3] /\ rs[3] <= rs[4] /\ rs[4] <= AlignUp(c.ws, k)) THEN "source_region_outside_image"
+  ELSE IF \E p \in RingOutside(c, rd) : MapsInsideD(c, p[1], p[2]) THEN "needed_destination_pixel_outside_destination_region"
+  ELSE IF \E p \in RingInside(c, rd) : MapsInsideD(c, p[1], p[2]) /\ ~InRoi(rs, SrcPixD(c, p)[1], SrcPixD(c, p)[2]) THEN "source_location_of_needed_pixel_outside_source_region"
+  ELSE "ok"
+
 \* direct use of the per-axis arithmetic (box_overlap / compute_axis_overlap) with ANY scale and translation (no snapping):
 \* the 1-d version of the contract.  x = [ns, nd, s, t] with s, t numerators over D; o = <<s0, s1, d0, d1>>
 AxisNeeded(x) == {d \in 0..(x.nd - 1) : 0 <= x.s * (2 * d + 1) + 2 * x.t /\ x.s * (2 * d + 1) + 2 * x.t < 2 * D * x.ns}
